@@ -13,6 +13,7 @@
   the classical record.
 -/
 import GraphiqModel.Proofs.CommuteRecord
+import GraphiqModel.Proofs.CommuteTableau
 namespace Graphiq.Commute
 open Graphiq
 open Graphiq.Wire
@@ -359,15 +360,12 @@ theorem Rewrites.cflat {c c' : Circuit} (hgood : c.Good) (hthr : CThreaded c) (h
     exact ⟨this.cflat, this.thr⟩
   | assignNoise seq c' h => exact cflat_assignNoise c hgood hthr seq c' h
 
-/-- **all per-register projections (classical registers included) of a compile sequence of the rewritten circuit and of the
-    original agree** -/
-theorem rewrites_proj_regsC_eq (c c' : Circuit) (hgood : c.Good) (hthr : CThreaded c) (hca : CArity c) (h : Rewrites c c')
+/-- all per-register projections (classical registers included) of compile sequences of two sane threaded circuits with the
+    same `flat` and the same operations on every classical wire agree -/
+theorem proj_regsC_eq_of (c c' : Circuit) (hgood : c.Good) (hthr : CThreaded c) (hca : CArity c) (hgood' : c'.Good)
+    (hthr' : CThreaded c') (hca' : CArity c') (hcf : CFlat c c') (hflat : c'.flat = c.flat)
     (seq seq' : List Nat) (hl : c.isLinearExtension seq = true) (hl' : c'.isLinearExtension seq' = true) (r : Reg) :
     projReg regsC r (c'.sops seq') = projReg regsC r (c.sops seq) := by
-  have hgood' := h.good hgood
-  obtain ⟨hcf, hthr'⟩ := Rewrites.cflat hgood hthr h
-  have hca' := Rewrites.carity hgood hca h
-  have hflat := h.flat_eq hgood
   by_cases hty : r.ty = .c
   · obtain ⟨ty, i⟩ := r
     simp only at hty
@@ -405,5 +403,63 @@ theorem rewrites_proj_regsC_eq (c c' : Circuit) (hgood : c.Good) (hthr : CThread
         intro hin
         exact hr (hq1 ▸ (mem_qregs c1 r).mpr (hwf1.qvalid n op hop r hin))
       rw [hnone c' hgood'.1 hqregs, hnone c hgood.1 rfl]
+
+/-- **all per-register projections (classical registers included) of a compile sequence of the rewritten circuit and of the
+    original agree** -/
+theorem rewrites_proj_regsC_eq (c c' : Circuit) (hgood : c.Good) (hthr : CThreaded c) (hca : CArity c) (h : Rewrites c c')
+    (seq seq' : List Nat) (hl : c.isLinearExtension seq = true) (hl' : c'.isLinearExtension seq' = true) (r : Reg) :
+    projReg regsC r (c'.sops seq') = projReg regsC r (c.sops seq) :=
+  proj_regsC_eq_of c c' hgood hthr hca (h.good hgood) (Rewrites.cflat hgood hthr h).2 (Rewrites.carity hgood hca h)
+    (Rewrites.cflat hgood hthr h).1 (h.flat_eq hgood) seq seq' hl hl' r
+
+/-! ### chains of rewrites -/
+
+/-- any finite sequence of the five rewrites (the property quantifies over all interleavings of the calls) -/
+inductive RewritesStar : Circuit → Circuit → Prop where
+  | refl (c : Circuit) : RewritesStar c c
+  | tail {c c1 c2 : Circuit} : RewritesStar c c1 → Rewrites c1 c2 → RewritesStar c c2
+
+theorem RewritesStar.single {c c' : Circuit} (h : Rewrites c c') : RewritesStar c c' := .tail (.refl c) h
+
+theorem RewritesStar.good {c c' : Circuit} (hgood : c.Good) (h : RewritesStar c c') : c'.Good := by
+  induction h with
+  | refl => exact hgood
+  | tail _ r ih => exact r.good ih
+
+theorem RewritesStar.flat_eq {c c' : Circuit} (hgood : c.Good) (h : RewritesStar c c') : c'.flat = c.flat := by
+  induction h with
+  | refl => rfl
+  | tail h1 r ih => exact (r.flat_eq (h1.good hgood)).trans ih
+
+theorem RewritesStar.arityOk {c c' : Circuit} (hgood : c.Good) (har : ArityOk c) (h : RewritesStar c c') : ArityOk c' := by
+  induction h with
+  | refl => exact har
+  | tail h1 r ih => exact Rewrites.arityOk (h1.good hgood) ih r
+
+theorem RewritesStar.gateOnly {c c' : Circuit} (hgood : c.Good) (hg : GateOnly c) (h : RewritesStar c c') : GateOnly c' := by
+  induction h with
+  | refl => exact hg
+  | tail h1 r ih => exact Rewrites.gateOnly (h1.good hgood) ih r
+
+theorem RewritesStar.carity {c c' : Circuit} (hgood : c.Good) (hca : CArity c) (h : RewritesStar c c') : CArity c' := by
+  induction h with
+  | refl => exact hca
+  | tail h1 r ih => exact Rewrites.carity (h1.good hgood) ih r
+
+theorem RewritesStar.cflat {c c' : Circuit} (hgood : c.Good) (hthr : CThreaded c) (h : RewritesStar c c') :
+    CFlat c c' ∧ CThreaded c' := by
+  induction h with
+  | refl => exact ⟨fun _ => rfl, hthr⟩
+  | tail h1 r ih =>
+    obtain ⟨hcf, hthr1⟩ := ih
+    obtain ⟨hcf2, hthr2⟩ := Rewrites.cflat (h1.good hgood) hthr1 r
+    exact ⟨fun i => (hcf2 i).trans (hcf i), hthr2⟩
+
+theorem chain_proj_regsC_eq (c c' : Circuit) (hgood : c.Good) (hthr : CThreaded c) (hca : CArity c)
+    (h : RewritesStar c c') (seq seq' : List Nat) (hl : c.isLinearExtension seq = true)
+    (hl' : c'.isLinearExtension seq' = true) (r : Reg) :
+    projReg regsC r (c'.sops seq') = projReg regsC r (c.sops seq) :=
+  proj_regsC_eq_of c c' hgood hthr hca (h.good hgood) (h.cflat hgood hthr).2 (h.carity hgood hca)
+    (h.cflat hgood hthr).1 (h.flat_eq hgood) seq seq' hl hl' r
 
 end Graphiq.Commute
